@@ -81,7 +81,7 @@ func (s1 jsonSet) diff(n JsonNode, path path, metadata []Metadata, strategy patc
 		default:
 			e = DiffElement{
 				Path:      path.clone(),
-				OldValues: nodeList(s1),
+				OldValues: nodeList(jsonArray(s1)),
 				NewValues: nodeList(n),
 			}
 		}
